@@ -11,6 +11,8 @@ Correspondence:
   A. every hand matcher against Python `re` / int / float / complex, exhaustively over all
      strings up to a length over a small per-matcher alphabet;
   B. every Convert2* function called directly on a literal grammar, compared with `conv`;
+  D. the float oracle: float(repr(x)) == x and float_shape(repr(x)) on sampled doubles (grid + random bit
+     patterns), float_shape Coq-vs-Python transliteration, conv on the repr texts vs the real converters;
   C. the same literals through the real Builder (init / put / set / inc / do with,cum / need
      goal / tolerance / framer period / bid period): stored share value or act parms, value and TYPE.
 """
@@ -456,6 +458,96 @@ def check_direct(ctx, building, info, lits):
     return nbad, metas
 
 
+# --------------------------------------------------------------------------------------------- D
+DIG = "0123456789"
+
+
+def py_float_shape(t):
+    """Python transliteration of Model.float_shape (the shape of repr of a finite float)"""
+    r = t[1:] if t[:1] == "-" else t
+    i = 0
+    while i < len(r) and r[i] in DIG:
+        i += 1
+    ip, r1 = r[:i], r[i:]
+
+    def exp_ok(x):
+        return len(x) >= 3 and x[0] == "e" and x[1] in "+-" and all(c in DIG for c in x[2:])
+    if not ip or not r1:
+        return False
+    if r1[0] == ".":
+        j = 1
+        while j < len(r1) and r1[j] in DIG:
+            j += 1
+        fp, r3 = r1[1:j], r1[j:]
+        return bool(fp) and (r3 == "" or exp_ok(r3))
+    return exp_ok(r1)
+
+
+def float_samples(ctx):
+    import struct
+    xs = [0.0, -0.0, 1.0, -1.0, 0.1, 0.5, 1.5, 100000.0, 1e16, 1e15, 9999999999999998.0, 1e22, 1e23, 1e-5, 1e-4,
+          0.0001, 0.00001, 123456.789, 3.141592653589793, 2.718281828459045, 1.7976931348623157e+308,
+          2.2250738585072014e-308, 5e-324, 4.9406564584124654e-324, 2.5e-7, -2.5e-07, 1e100, 1e-100, 1e300,
+          0.30000000000000004, 4503599627370496.0, 9007199254740993.0, 1e21, 123456789012345680.0]
+    xs += [10.0 ** k for k in range(-30, 31)] + [2.0 ** k for k in range(-60, 61, 3)]
+    xs += [float(k) for k in range(-20, 21)] + [k / 8.0 for k in range(-20, 21)]
+    n = ctx.n(150, 20000)
+    while n > 0:
+        x = struct.unpack("<d", struct.pack("<Q", ctx.rng.getrandbits(64)))[0]
+        if x == x and x not in (float("inf"), float("-inf")):
+            xs.append(x)
+            n -= 1
+    for _ in range(ctx.n(80, 5000)):
+        xs.append(ctx.rng.uniform(-1, 1) * 10.0 ** ctx.rng.randint(-12, 12))
+    return xs
+
+
+def check_float_oracle(ctx, building, info, lits):
+    """validates the two premises of Props.float_roundtrip against CPython (repr_inverse, repr_shape),
+    the Python transliteration of float_shape against the Coq definition, and conv on repr texts
+    against the real converters"""
+    xs = float_samples(ctx)
+    texts, seen = [], set()
+    nbad = 0
+    for x in xs:
+        t = repr(x)
+        ok_inv = float(t).hex() == x.hex()
+        ok_shape = py_float_shape(t)
+        if not (ok_inv and ok_shape):
+            nbad += 1
+            if nbad <= 3:
+                ctx.tie_broken("correspondence", "float oracle premise (repr_inverse / repr_shape)",
+                               "x=%s repr=%r float(repr)==x:%s float_shape(repr):%s" % (x.hex(), t, ok_inv, ok_shape))
+        if t not in seen:
+            seen.add(t)
+            texts.append(t)
+    # transliteration of float_shape: Coq vs Python on the repr texts and on grammar literals
+    probe = texts + [t for t in lits[:200] if t not in seen]
+    flat = coq_flat(ctx, ENC, ["map (fun t => if float_shape t then 1 else 0) [%s]" % ";\n".join(zl(t) for t in probe)],
+                    "fshape")[0]
+    if len(flat) != len(probe):
+        raise RuntimeError("float_shape output length mismatch")
+    for t, b in zip(probe, flat):
+        ctx.case({"float_shape": t, "coq": b}, nontrivial=bool(b), kind="oracle:float_shape")
+        if bool(b) != py_float_shape(t):
+            nbad += 1
+            if nbad <= 5:
+                ctx.tie_broken("correspondence", "float_shape transliteration", "text=%r coq=%r python=%r"
+                               % (t, bool(b), py_float_shape(t)))
+    chains = CHAINS[:-1]
+    model = model_conv(ctx, texts, chains, "floats")
+    for t, row in zip(texts, model):
+        for c, m in zip(chains, row):
+            impl, _ = canon_impl(getattr(building, fn_name(c)), t)
+            ctx.case({"chain": c, "repr": t, "impl": impl}, kind="oracle:float repr")
+            if m != ("float", t) or not agree(m, impl, info["points"]):
+                nbad += 1
+                if nbad <= 5:
+                    ctx.tie_broken("correspondence", "float repr through %s" % fn_name(c),
+                                   "text=%r model=%r implementation=%r" % (t, m, impl))
+    return nbad
+
+
 # --------------------------------------------------------------------------------------------- C
 DIRECT_SCRIPT = """house h
 
@@ -795,6 +887,8 @@ def run(ctx):
         "float(text)/complex(text) VALUES are CPython's (modelled, not verified): the model recognises the text "
         "grammar and returns the text; points and lat/lon return captured group texts; the harness applies "
         "CPython float() to them when comparing",
+        "float oracle (premises of Props.float_roundtrip, validated on sampled doubles in phase D): "
+        "float(repr(x)) == x and repr(x) has Model.float_shape for every finite double x",
         "CPython >= 3.11 refuses int(text, 10) for more than 4300 digits (sys.get_int_max_str_digits); the model's "
         "int is unbounded, so int_roundtrip speaks about literals below that limit",
     ]
@@ -817,8 +911,11 @@ def run(ctx):
     t2 = time.time()
     nb_c = check_builder(ctx, building, excepting, info, builder_literals(ctx, building))
     t3 = time.time()
-    ctx.extra["mismatches"] = {"matchers": nb_a, "direct": nb_b, "builder": nb_c}
-    ctx.extra["phase_seconds"] = {"matchers": round(t1 - t0, 1), "direct": round(t2 - t1, 1), "builder": round(t3 - t2, 1)}
+    nb_d = check_float_oracle(ctx, building, info, lits)
+    t4 = time.time()
+    ctx.extra["mismatches"] = {"matchers": nb_a, "direct": nb_b, "builder": nb_c, "float_oracle": nb_d}
+    ctx.extra["phase_seconds"] = {"matchers": round(t1 - t0, 1), "direct": round(t2 - t1, 1),
+                                  "builder": round(t3 - t2, 1), "float_oracle": round(t4 - t3, 1)}
     ctx.exhaustive = False
     ctx.settle(lambda: search(ctx))
 
